@@ -6,7 +6,7 @@ from core import verdicts as core_verdicts
 
 
 def run(res, tier, wd):
-    n = 5 if tier == "quick" else 6
+    n = 6 if tier == "quick" else 7
     cfg = ("CONSTANTS\n MaxActions = %d\nINIT Init\nNEXT Next\nINVARIANT CleanSlate\nINVARIANT Counting\nPROPERTY Monotone\n"
            "INVARIANT Emit\nCHECK_DEADLOCK FALSE\n" % n)
     r = tlc("PEPit", cfg, wd, coverage=True)
